@@ -80,6 +80,12 @@ def build(v):
             if not a['enum'] and not a['base'].startswith('list:'):
                 val = ALTLEX.get(a['type'], ALTLEX.get(a['base'].split(':')[-1], val))
             setattr(inst, a['member'], val)
+    if kind == 'allattrs_special':
+        for a in t['attributes']:
+            val = attr_value(a)
+            if not a['enum'] and not a['base'].startswith('list:') and a['type'] in ('anyURI', 'string', 'None'):
+                val = u'urn:verif:two words/<a&b>"q"/\u00e9\u4e2d' if a['type'] == 'anyURI' else u' two  words <a&b> "q" \u00e9\u4e2d '
+            setattr(inst, a['member'], val)
     if kind == 'optattrs_empty':
         for a in t['attributes']:
             setattr(inst, a['member'], attr_value(a) if a['required'] else '')
@@ -184,7 +190,7 @@ def main():
     if chk.tier != 'thorough':
         keep = []
         for c in cases:
-            if c['v']['kind'] in ('empty', 'allattrs', 'allchildren', 'foreign_child', 'foreign_attr', 'ownns_attr', 'ownns_attr_both', 'text_layout', 'optattrs_empty', 'allattrs_altlex') or not c['roundTrips'] \
+            if c['v']['kind'] in ('empty', 'allattrs', 'allchildren', 'foreign_child', 'foreign_attr', 'ownns_attr', 'ownns_attr_both', 'text_layout', 'optattrs_empty', 'allattrs_altlex', 'allattrs_special') or not c['roundTrips'] \
                     or chk.rng.random() < 0.35:
                 keep.append(c)
         cases = keep
@@ -216,9 +222,9 @@ def main():
                     chk.note('drift: %s %s round-trips in the code but not in the abstract model' % (v['cls'], v['kind']))
                 chk.sample({'variant': v, 'serialised': out.get('text', '')[:200]}, limit=4)
     chk.cov['exhaustive'] = chk.tier == 'thorough'
-    chk.cov['rule'] = ('variants of Schema.tla for each of the exported classes (nothing set, each attribute, all attributes, all optional attributes empty, all attributes in another lexical form, each child '
+    chk.cov['rule'] = ('variants of Schema.tla for each of the exported classes (nothing set, each attribute, all attributes, all optional attributes empty, all attributes in another lexical form, all string-like attributes with blanks / markup / non-ASCII, each child '
                       'with 1..3 instances, all children, foreign child, foreign attribute, a three-level tree with everything set, own-namespace look-alike of a declared attribute, XML-special, non-ASCII and multi-line / padded text): thorough '
-                      'all 18 096, quick the structural kinds plus a seeded third of the rest; distinct = distinct (class, variant)')
+                      'all 19 250, quick the structural kinds plus a seeded third of the rest; distinct = distinct (class, variant)')
     chk.cov['classes'] = len(table())
     chk.assumptions = ['single-feature variants are depth-1 instances (children are empty instances of their class); the "deep" variant of '
                        'every class is a three-level tree with every attribute and child, lists of two, foreign content at every level',
